@@ -74,7 +74,10 @@ func (op *MergeOperator) iterateAndMerge() (newVal []byte, latest uint64, err er
 			if err := item.Value(func(oldVal []byte) error {
 				// The merge should always be on the newVal considering it has the merge result of
 				// the latest version. The value read should be the oldVal.
-				newVal = op.f(oldVal, newVal)
+				// The merge function may return one of its arguments as it is. oldVal belongs to the
+				// item and is only valid inside this callback (items are recycled as the iterator
+				// moves on), so the result is copied.
+				newVal = y.Copy(op.f(oldVal, newVal))
 				return nil
 			}); err != nil {
 				return nil, 0, err
